@@ -216,8 +216,41 @@ def r3_wiring(repo=None):
     return r
 
 
+def r4_channel_pairs(repo=None):
+    r = Rule("C18.R4", "every requested channel becomes exactly one (source, destination) pair")
+    m = pyfront.mod("list_drf", repo)
+    q = "_parse_srcdest_args"
+    f = m.fn(q)
+    def stores(attr):
+        return [n for n in ast.walk(f) if isinstance(n, (ast.Assign, ast.AugAssign)) and any(
+            isinstance(t, ast.Attribute) and isinstance(t.value, ast.Name) and t.value.id == "args" and t.attr == attr
+            for t in (n.targets if isinstance(n, ast.Assign) else [n.target]))]
+    chs = stores("chs")
+    sd = stores("srcdests")
+    muts = [c for c in ast.walk(f) if isinstance(c, ast.Call) and isinstance(c.func, ast.Attribute)
+            and norm(ast.unparse(c.func.value)) in ("args.chs", "args.srcdests")
+            and c.func.attr in ("remove", "pop", "append", "extend", "insert", "clear", "sort", "reverse")]
+    ok_chs = len(chs) == 1 and norm(ast.unparse(chs[0].value)) == "[b.strip() for a in args.chs for b in a.strip().split(',')]"
+    comp = [n for n in sd if isinstance(n.value, ast.ListComp)]
+    ok_sd = len(sd) == 2 and len(comp) == 1 and not comp[0].value.generators[0].ifs and norm(ast.unparse(comp[0].value.generators[0].iter)) == "args.chs" \
+        and norm(ast.unparse(comp[0].value.elt)) == "(os.path.join(args.src, ch), os.path.join(args.dest, ch))"
+    fallback = [n for n in sd if norm(ast.unparse(n.value)) == "[(args.src, args.dest)]"]
+    guarded = fallback and isinstance(m.parents.get(fallback[0]), ast.If) and norm(ast.unparse(m.parents.get(fallback[0]).test)) == "not args.srcdests"
+    if ok_chs and ok_sd and guarded and not muts:
+        r.ok("%s:%s %s" % (m.rel, f.lineno, q), "args.chs is only split on commas; srcdests has one unfiltered (src/ch, dest/ch) pair per channel, "
+             "or (src, dest) when no channel was given")
+    else:
+        bad = (muts or [x for x in chs[1:]] or sd or [f])[0]
+        r.violation(m.rel, q, norm(ast.unparse(bad))[:100] if bad is not f else "channel list handling",
+                    "the list of requested channels is filtered, de-duplicated or otherwise modified before the transfer loops: a "
+                    "requested channel can be skipped (e.g. a nested channel together with --only), so fewer files are transferred "
+                    "than the equivalent listing selects", line=getattr(bad, "lineno", f.lineno))
+    r.guard(1)
+    return r
+
+
 def rules(repo=None):
-    return [lambda: r1_transfer_loops(repo), lambda: r2_option_table(repo), lambda: r3_wiring(repo)]
+    return [lambda: r1_transfer_loops(repo), lambda: r2_option_table(repo), lambda: r3_wiring(repo), lambda: r4_channel_pairs(repo)]
 
 
 EXPLANATION = (
@@ -227,6 +260,7 @@ EXPLANATION = (
     "attributes added, minus the keys deleted, equal ilsdrf's parameter list for cp/mv/ln/ls; include/exclude options are "
     "store_true/store_false pairs on one destination; --only switches recursion off. R3: drf_command registers the four commands "
     "with the matching builders whose set_defaults(func=...) name the matching run functions; primitives are shutil.copy2, "
-    "os.link/os.symlink, shutil.move; ls lists through ilsdrf/lsdrf. Does NOT decide byte identity (library code).")
+    "os.link/os.symlink, shutil.move; ls lists through ilsdrf/lsdrf. R4: the channel list is only split on commas and mapped, unfiltered, "
+    "to (source, destination) pairs. Does NOT decide byte identity (library code).")
 ASSUMPTIONS = ["argparse derives dest from the first long option string", "shutil/os primitives behave as documented"]
 FILES = [LD, "python/digital_rf/drf_command.py"]
